@@ -68,7 +68,7 @@ def signal(rng, kind=None, max_len=1000):
     elif kind == 'dc':
         sig = base + 0.1 * nrng.standard_normal(n) + rng.choice([-3.0, 0.5, 2.0, 10.0])
     else:  # scaled
-        sig = (base + 0.1 * pink()) * (10.0 ** rng.choice([-3, -2, 2, 3]))
+        sig = (base + 0.1 * pink()) * (10.0 ** rng.choice([-12, -9, -6, -3, -2, 2, 3, 6, 9]))
     sig = np.asarray(sig, dtype=float)
     return {'sig': sig, 'fs': fs, 'f_range': f_range, 'kind': kind, 'period': period}
 
